@@ -532,7 +532,10 @@ def register_cached_test_func(R, prop):
         "C12_outcome_stored_after_every_send": "implies(ctx.config.execution.unique_inputs, ghost('stored') == ghost('called'))",
         "C05_new_input_is_executed": "implies(not old(ctx.control.stop_event.flag or ctx.control.has_reached_the_failure_limit) and (not ctx.config.execution.unique_inputs or ghost('cached') is NOT_SET()), ghost('called') == 1)",
         "C05_other_exceptions_are_recorded_before_unexpected_error": "implies(raised == 'UnexpectedError', length(errors) == old(length(errors)) + 1)",
-        "C05_failures_propagate_unchanged": "implies(ghost('inner_outcome') in ('Failure', 'FailureGroup', 'KeyboardInterrupt'), raised == ghost('inner_outcome'))",
+        "C05_failures_propagate_unchanged": "implies(ghost('inner_outcome') == 'schemathesis.core.failures:Failure', raised == 'Failure') and "
+                                            "implies(ghost('inner_outcome') == 'schemathesis.core.failures:FailureGroup', raised == 'FailureGroup') and "
+                                            "implies(ghost('inner_outcome') == 'KeyboardInterrupt', raised == 'KeyboardInterrupt')",
+        # (at an abstract call `raised` is the entry of the callee's raises list, at top level it is the class name)
         "C05_errors_only_grow_with_unexpected_error": "implies(raised != 'UnexpectedError', length(errors) == old(length(errors)))",
     }
     R.spec_funcs["NOT_SET"] = lambda it: NOTSET.make(it, "NOT_SET")
